@@ -15,7 +15,7 @@ RULE = ("call sequences over {open_rx_pipe(0|1|2,a), close_rx_pipe(0|1), open_tx
         "last call is followed by real probe transmissions (a third radio sending to the "
         "user's address and to the TX address; send() to a listening peer). Non-trivial: at "
         "least one role change was observed; distinct = distinct call histories.")
-RULE += (" Later rounds added: neutral calls (get_auto_ack, power) mixed into the random walks.")
+RULE += (" Later rounds added: neutral calls mixed into the random walks (get_auto_ack, power, an open_rx_pipe(0, empty) the driver refuses, CE driven by the application in TX role), directed templates beyond the search depth (two TX addresses with auto-ack changes between them; a neutral call before each of two RX entries).")
 REQUIRED = {"rx_entry_pipe0": 300, "probe_user_addr": 100, "probe_tx_addr": 50,
             "tx_pipe0_ack_addr": 200, "send_probe": 100, "ce_at_return": 2000,
             "prim_rx_flip_ce": 500}
@@ -82,10 +82,21 @@ def do(obj, op):
         obj.get_auto_ack(op[1])
     elif n == "power":
         obj.power = op[1]
+    elif n == "open_rx_pipe_rejected":
+        # a call the driver refuses (empty address): ValueError, and nothing the property speaks
+        # about may have changed
+        try:
+            obj.open_rx_pipe(0, [b"", bytearray()][op[1]])
+        except ValueError:
+            pass
+    elif n == "ce" and obj.power and not obj.listen:
+        obj.ce_pin = op[1]  # in TX role the application may drive CE itself (write() does)
 
 
 # calls that change nothing the property speaks about; mixed into the random walks only
-NEUTRAL_OPS = [["get_auto_ack", 0], ["get_auto_ack", 2], ["get_auto_ack", 5], ["power", False], ["power", True]]
+NEUTRAL_OPS = [["get_auto_ack", 0], ["get_auto_ack", 2], ["get_auto_ack", 5], ["power", False], ["power", True],
+               ["open_rx_pipe_rejected", 0], ["open_rx_pipe_rejected", 1], ["ce", True], ["ce", False]]
+FULL_ONLY_NEUTRAL = ("get_auto_ack", "ce")
 
 
 def obj_state(obj):
@@ -306,13 +317,23 @@ def run_shard(ctx, kind="full", prefix=""):
                                [["open_tx_pipe", z]] + ([aa2] if aa2 else []) + [["listen", True], ["listen", False],
                                                                                 ["open_tx_pipe", y]]
                         tpl.append(path)
+    # ... and with a neutral call (refused open_rx_pipe, CE driven by the application in TX role) before each of two RX entries
+    for nop in NEUTRAL_OPS[5:]:
+        if kind != "full" and nop[0] in FULL_ONLY_NEUTRAL:
+            continue
+        for x in (None, A, D):
+            for y in (A, C):
+                for aa1 in ((None, ["auto_ack", 0x3E]) if kind == "full" else (None,)):
+                    pre = ([["open_rx_pipe", 0, x]] if x else []) + [["listen", False], ["open_tx_pipe", y]] + ([aa1] if aa1 else [])
+                    tpl.append(pre + [nop, ["listen", True], ["listen", False], nop, ["listen", True], ["listen", False],
+                                      ["open_tx_pipe", y]])
     for ti, path in enumerate(tpl):
         if ti % ctx.nshards != ctx.shard:
             continue
         if ctx.out_of_time():
             break
         aw = 3 + ti % 3
-        for c in (len(path) - 2, len(path)):  # judged at the RX entry and at the final open_tx_pipe
+        for c in sorted({j + 1 for j, o in enumerate(path) if o == ["listen", True]} | {len(path)}):  # each RX entry, the end
             ctx.evaluations += 1
             execute(ctx, {"kind": kind, "aw": aw, "ops": path[:c]}, prefix=prefix)
     ctx.count("directed_templates", len(tpl))
@@ -324,7 +345,7 @@ def run_shard(ctx, kind="full", prefix=""):
             break
         aw = rng.choice([3, 4, 5])
         L = rng.randrange(5, 31)
-        walk_ops = ops + (NEUTRAL_OPS if kind == "full" else NEUTRAL_OPS[3:])
+        walk_ops = ops + [o for o in NEUTRAL_OPS if kind == "full" or o[0] not in FULL_ONLY_NEUTRAL]
         path = [rng.choice(walk_ops) for _ in range(L)]
         # the probes need a powered radio (send() does not power the radio up: documented usage
         # is listen = False first); `listen` assignments power it up themselves
